@@ -79,7 +79,8 @@ def replay_history(hist, seed, collide=False):
     steps_done = []
 
     def mm(clause, step, detail):
-        mism.append({"clause": clause, "props": ["C13"], "step": step, "detail": detail, "id": hist["id"]})
+        mism.append({"clause": clause, "props": ["C13", "C18"] if clause == "session-error" else ["C13"], "step": step,
+                     "detail": detail, "id": hist["id"]})
     try:
         pp = ["[tool.inline-snapshot]"]
         if hash_length != 12:
